@@ -295,6 +295,13 @@ fn containers(acc: &Acc) {
             set_checks(acc, &format!("([Coor2D;2], h={h:?}, t={t:?})"), Kind { stored: 2, third: Some(h), fourth: Some(t), f32: false }, &mut p, 2);
             let mut p = (vec![Coor32::origin(); 2], h, t);
             set_checks(acc, &format!("(Vec<Coor32>, h={h:?}, t={t:?})"), Kind { stored: 2, third: Some(h), fourth: Some(t), f32: true }, &mut p, 2);
+            // around a container that has the dimension itself: the adapter's fixed value is what is read
+            let mut p = (vec![Coor4D::origin(); 2], t);
+            set_checks(acc, &format!("(Vec<Coor4D>, t={t:?})"), Kind { stored: 3, third: None, fourth: Some(t), f32: false }, &mut p, 2);
+            let mut p = (vec![Coor4D::origin(); 2], h, t);
+            set_checks(acc, &format!("(Vec<Coor4D>, h={h:?}, t={t:?})"), Kind { stored: 2, third: Some(h), fourth: Some(t), f32: false }, &mut p, 2);
+            let mut p = ([Coor3D::origin(); 2], h, t);
+            set_checks(acc, &format!("([Coor3D;2], h={h:?}, t={t:?})"), Kind { stored: 2, third: Some(h), fourth: Some(t), f32: false }, &mut p, 2);
         }
     }
     // the user container through the trait defaults
